@@ -54,6 +54,14 @@ def ll_bimodal_blob(x):
     return ll_bimodal(x), blob_of(x)
 
 
+def ll_unequal(x):
+    """Two modes of very different height: the lower one dies out as beta grows."""
+    x = np.asarray(x, dtype=float)
+    a = -0.5 * np.sum((x - 4.0) ** 2) / 0.5
+    b = -30.0 - 0.5 * np.sum((x + 4.0) ** 2) / 0.5
+    return float(np.logaddexp(a, b))
+
+
 def ll_flat(x):
     return 0.0
 
